@@ -16,6 +16,7 @@ EXTENDS Integers, Sequences, FiniteSets, TLC, Json, IOUtils
 Batch == JsonDeserialize(IOEnv.TRACE_FILE)
 
 GM == INSTANCE GoModel WITH NR <- 0, Spacing <- 0, Seps <- {}, Windows <- {}, XLinks <- {}, inp <- <<>>, out <- {}
+GF == INSTANCE GoFiles          \* the real command line: written files, contact-map files, water bias (kinds other than "mem")
 
 VARIABLES tid, verdict
 vars == <<tid, verdict>>
@@ -96,9 +97,42 @@ Classes(e) ==
       absent |-> GM!AbsentEntries(g, cx), sites |-> Cardinality(GM!Backbone(g))]
 
 NoClasses == [pair |-> 0, sym |-> 0, sep |-> 0, lo |-> 0, up |-> 0, multi |-> 0, absent |-> 0, sites |-> 0]
+
+(* ------------------------------------------ events of the real command line ------------------------------------------
+   kind "mem"     a run of GoPipeline.run_system on a generated molecule (exact integer geometry)            -> Judge
+        "climem"  the same observation inside a run of bin/martinize2 (real structure, geometry to e.tol)    -> sites as above,
+                  contacts with the tolerance band of GoFiles
+        "clifile" the files that run wrote                                                                    -> GF!JudgeFiles
+        "rt"      a generated contact map against itself after a round trip through the file format           -> GF!JudgeRoundTrip
+        "same"    two runs that must have written the same Go model                                           -> GF!JudgeSame
+        "wb"      a run without and one with water-bias / disordered-region options                           -> GF!JudgeWater  *)
+JudgeCliMem(e) ==
+  IF e.post.exc THEN "exception"
+  ELSE LET s == JudgeSites(e.g, e.post)
+       IN IF s # "ok" THEN s
+          ELSE LET b == GF!JudgeBand(e.g, GM!Ctx(e.g), e.post.nb, e.post.excl, e.tol)
+               IN IF b # "ok" THEN b ELSE IF ~e.post.others THEN "other-interactions-changed" ELSE "ok"
+
+JudgeAny(e) ==
+  CASE e.kind = "mem"     -> Judge(e)
+    [] e.kind = "climem"  -> JudgeCliMem(e)
+    [] e.kind = "clifile" -> GF!JudgeFiles(e)
+    [] e.kind = "rt"      -> GF!JudgeRoundTrip(e)
+    [] e.kind = "same"    -> GF!JudgeSame(e)
+    [] e.kind = "wb"      -> GF!JudgeWater(e)
+
+\* facts for the vacuity report; only computed for accepted events (a rejected recording may be malformed)
+FactsAny(e, v) ==
+  CASE e.kind = "mem"     -> Classes(e)
+    [] e.kind = "climem"  -> IF v = "ok" THEN GF!BandClasses(e.g, GM!Ctx(e.g), e.tol) ELSE NoClasses
+    [] e.kind = "clifile" -> IF v = "ok" THEN GF!FileClasses(e) ELSE NoClasses
+    [] e.kind = "rt"      -> IF v = "ok" THEN GF!RoundTripFacts(e) ELSE NoClasses
+    [] e.kind = "same"    -> NoClasses
+    [] e.kind = "wb"      -> IF v = "ok" THEN GF!WaterFacts(e) ELSE NoClasses
+
 Init == tid \in 1..Len(Batch) /\ verdict = [v |-> "pending", cls |-> NoClasses]
 Eval == /\ verdict.v = "pending"
-        /\ verdict' = [v |-> Judge(Batch[tid]), cls |-> Classes(Batch[tid])]
+        /\ LET v == JudgeAny(Batch[tid]) IN verdict' = [v |-> v, cls |-> FactsAny(Batch[tid], v)]
         /\ UNCHANGED tid
 Spec == Init /\ [][Eval]_vars
 =============================================================================
